@@ -4,7 +4,7 @@ package main
 
 // Correspondence for C03, the table aggregator under the spark command's render callback:
 //
-//	tbl <delim> <ncols> <samples> <renders>
+//	tbl <delim> <ncols> <samples> <renders> [<sort-cols hex>]
 //
 // drives the REAL aggregation.TableAggregator through an interleaving of Sample calls and the trim step of
 // cmd/spark.go's render callback (OrderedColumns(colSorter) -> keep the last <ncols> -> Trim(predicate)), exactly
@@ -13,6 +13,9 @@ package main
 // RunAggregationLoop always performs) follows the last sample, then csv.WriteTable.  Answer:
 // `ok <csv hex> <RowCount> <ColumnCount> <Sum> <min> <max> <parseErrors>`.
 // The Lean side folds `Table.sample` / `sparkTrim` over the same script (Model/C07 table, Model/C03 sparkTrim).
+// With the optional fifth field the WHOLE `if` statement of the render callback is replayed for that `--sort-cols` text:
+// guard `!noTruncate && !helpers.SortsByValue(sortCols)` with the real SortsByValue, colSorter = the real
+// BuildSorter(sortCols) – a value-ordered spelling (`value`, `VALUE:asc` …) never trims, whatever the renders.
 // Oracle for: state after Sample*/Trim*/Sample* = model fold with the same Trim calls (a row emptied by a Trim and
 // sampled again right afterwards is a fresh row), and the final export = export of the trimmed sequential table.
 
@@ -26,22 +29,26 @@ import (
 	"rare/pkg/csv"
 )
 
-// c03SparkTrim is the statement block of cmd/spark.go's render callback (Gen/C03 `sparkTrimSrc` pins its text).
-func c03SparkTrim(counter *aggregation.TableAggregator, numCols int) {
-	colSorter, err := helpers.BuildSorter("text")
+// c03SparkTrim is the `if` statement of cmd/spark.go's render callback with noTruncate = false (Gen/C03 `sparkTrimGuard`,
+// `sparkTrimBody` pin its text; `sparkTrimGuardE` / `sortsByValueFn` are evaluated in `sorts_by_value_from_source`).
+func c03SparkTrim(counter *aggregation.TableAggregator, numCols int, sortCols string) {
+	colSorter, err := helpers.BuildSorter(sortCols)
 	if err != nil {
 		panic(err)
 	}
-	if keepCols := counter.OrderedColumns(colSorter); len(keepCols) > numCols {
-		keepCols = keepCols[len(keepCols)-numCols:]
-		keepLookup := make(map[string]struct{})
-		for _, item := range keepCols {
-			keepLookup[item] = struct{}{}
+	noTruncate := false
+	if !noTruncate && !helpers.SortsByValue(sortCols) {
+		if keepCols := counter.OrderedColumns(colSorter); len(keepCols) > numCols {
+			keepCols = keepCols[len(keepCols)-numCols:]
+			keepLookup := make(map[string]struct{})
+			for _, item := range keepCols {
+				keepLookup[item] = struct{}{}
+			}
+			counter.Trim(func(col, row string, val int64) bool {
+				_, ok := keepLookup[col]
+				return !ok
+			})
 		}
-		counter.Trim(func(col, row string, val int64) bool {
-			_, ok := keepLookup[col]
-			return !ok
-		})
 	}
 }
 
@@ -62,18 +69,25 @@ func c03TblRun(f []string) string {
 	ncols, _ := strconv.Atoi(f[2])
 	samples := UnHexListS(f[3])
 	renders := c03ParseRenders(f[4])
+	sortCols := "text"
+	if len(f) > 5 {
+		sortCols = string(UnHex(f[5]))
+		if _, err := helpers.BuildSorter(sortCols); err != nil {
+			return "fatal 2"
+		}
+	}
 	a := aggregation.NewTable(delim)
 	ri := 0
 	for i := 0; i <= len(samples); i++ {
 		for ri < len(renders) && renders[ri] <= i {
-			c03SparkTrim(a, ncols)
+			c03SparkTrim(a, ncols, sortCols)
 			ri++
 		}
 		if i < len(samples) {
 			a.Sample(samples[i])
 		}
 	}
-	c03SparkTrim(a, ncols)
+	c03SparkTrim(a, ncols, sortCols)
 	res := c03Write(func(w csv.CSV) error { return csv.WriteTable(w, a) })
 	if !strings.HasPrefix(res, "ok ") {
 		return res
@@ -128,6 +142,10 @@ func c03TblCase(r *Rand) string {
 	rs := "."
 	if len(renders) > 0 {
 		rs = strings.Join(renders, ",")
+	}
+	if r.Chance(1, 4) { // the whole guard: value-ordered spellings never trim, text spellings trim
+		sc := Pick(r, []string{"value", "VALUE", "Value:asc", "vALUE:DESC", "value:rev", "VALUE:Reverse", "text", "TEXT", "Text:ASC", "text:asc"})
+		return fmt.Sprintf("tbl %s %d %s %s %s", HexS(delim), ncols, HexListS(samples), rs, HexS(sc))
 	}
 	return fmt.Sprintf("tbl %s %d %s %s", HexS(delim), ncols, HexListS(samples), rs)
 }
@@ -186,6 +204,15 @@ func c03TblStats(f []string, st map[string]int) {
 	}
 	if f[2] == "0" {
 		st["tbl.cols0"]++
+	}
+	if len(f) > 5 {
+		st["tbl.sortCols"]++
+		if sc := string(UnHex(f[5])); helpers.SortsByValue(strings.ToLower(sc)) {
+			st["tbl.sortCols.value"]++
+			if sc != strings.ToLower(sc) {
+				st["tbl.sortCols.value.upperCase"]++
+			}
+		}
 	}
 }
 
